@@ -13,6 +13,12 @@ warm-started (through the disciplines' default inputs) at a symbolic consistent 
 inner MDA proves a zero residual and stops at once (as in C06).
 
 The oracles are explicit scalar loops over the discipline symbols; they never call gemseo.
+
+Harness ``mdf_jac`` (added with the contract stubs of ``harness/C07.py``): the MDF total derivatives on strongly coupled systems, through the real
+``FunctionFromDiscipline`` / ``DisciplineAdapter`` / ``BaseMDA._compute_jacobian`` / ``JacobianAssembly.total_derivatives`` / ``CoupledSystem`` code with
+scipy.sparse and the linear solvers replaced (symbolic mode only) by value-preserving containers and exact, re-checked solves, against (a) the
+implicit-function closed form built from the disciplines' partial derivatives and (b) the reduced derivative built from the Jacobian blocks that the real IDF
+problem returns at (x, y*).  Harness ``weak_adjoint``: ``weak`` with MDF differentiated through the coupled adjoint (``chain_linearize=False``).
 """
 from __future__ import annotations
 
@@ -43,21 +49,52 @@ META = dict(
               "acyclic systems, 2 design-space orders each: symbolic design point and symbolic initial coupling targets (free symbols, i.e. generally not at "
               "equilibrium; the targets produced inside a non-degenerate cycle start at a symbolic consistent y*), current value of every coupling == "
               "multidisciplinary solution, design variables unchanged, consistency constraints 0 and objective / constraint == MDF's at the initial point; "
-              "design-space variable sets of the three formulations on 7 coupling graphs (concrete), IDF refusing a design space without a coupling",
-        thorough="same systems, full product of orders x switches",
+              "design-space variable sets of the three formulations on 7 coupling graphs (concrete), IDF refusing a design space without a coupling; "
+              "harness mdf_jac (55 configurations): MDF objective / user constraint / observable .evaluate and .jac at a symbolic design point on 8 strongly coupled "
+              "systems of 2-5 disciplines with affine strong couplings (concrete dyadic coefficients, exact Jacobians) and uninterpreted objective / constraint / "
+              "weak-coupling outputs (uninterpreted partial derivatives): ring of 2 + post-coupling discipline (sellar), size-2 couplings + weak output + parameter (vec), "
+              "ring of 3 with the functions inside the loop (ring3), a self-coupled discipline inside a cycle (selfc) and alone (self1), two strongly connected components "
+              "in sequence (two_scc), a coupled pair with pre- and post- weakly coupled disciplines (head_pair_tail, pair_tail); coupled dimension <= 5; main MDA "
+              "MDAChain(inner MDAGaussSeidel | MDAJacobi | MDANewtonRaphson), MDAGaussSeidel, MDAJacobi, MDANewtonRaphson (ring3, selfc), all warm-started at the "
+              "multidisciplinary solution y*(x) (explicit exact linear combination of the symbolic inputs; one configuration with free symbols constrained by "
+              "y* = Y(x, y*)); linearization_mode auto / direct / adjoint, use_lu_fact, matrix_type linear_operator; 2-3 design-space orders; objective = an output "
+              "of a post-coupling discipline, of a coupled discipline, a strong coupling, a weak coupling (vector), a vector output (swap); user constraint eq / ineq / "
+              "value / positive; observables; minimize_objective=False; preprocess_functions(is_function_input_normalized=True) on the MDF problem; "
+              "differentiated_input_names_substitute (a subset, a permutation, a non-design parameter input); disciplines filling all / only the requested Jacobian "
+              "blocks; reversed listing; Jacobian requested before the value and twice; 9 configurations with every output affine (non-trivial float64 self-test "
+              "against the real SciPy); IDF built on fresh disciplines with normalize_constraints True / False, evaluated at (x, y*); "
+              "harness weak_adjoint (6 configurations): the acyclic systems with MDF differentiated through the coupled adjoint (MDAChain, default "
+              "chain_linearize=False, inner Gauss-Seidel / Jacobi settings, modes auto / direct / adjoint) against DisciplinaryOpt, IDF and the forward-accumulation oracle",
+        thorough="same systems, full product of orders x switches; mdf_jac: every system x order x main MDA x linearization mode (rotating Krylov | LU | linear operator, "
+                 "constraint kinds, normalize_constraints, requested blocks), every coupling variable as objective with another one as observable, normalized / maximised / "
+                 "substitute / twice / reversed-listing / assumed-y* variants per system x order, every MDA x direct / adjoint with all-affine outputs (640 configurations; the assumed-y* variant only on the systems without weak couplings); "
+                 "weak_adjoint: every acyclic system x order x 3 MDA / mode settings",
     ),
     outside=[
         "BiLevel and the other bi-level formulations; running an optimizer to compare optima (the claim is about the functions the optimizer would see)",
-        "MDF total derivatives on strongly coupled systems (coupled adjoint: JacobianAssembly -> scipy.sparse; C07) and MDAChain(chain_linearize=False) on acyclic ones",
-        "MDF away from a warm start at the solution (the MDA then iterates a data-dependent number of sweeps: C06); Newton / quasi-Newton / hybrid MDAs (compiled solvers)",
+        "MDF total derivatives on strongly coupled systems: claimed only through the contract stubs of C07 (value-preserving dense storage for scipy.sparse, exact linear "
+        "solves for SuperLU / the Krylov solvers): solver numerics (tolerances, non-convergence, fall-backs, ill-conditioning) and storage formats are outside; coupled "
+        "dimension > 5, variable sizes > 2, more than 5 disciplines; strong couplings that are not affine (the partial derivatives of the strong couplings are concrete "
+        "numbers; those of every other output are arbitrary - uninterpreted)",
+        "MDF away from a warm start at the solution (the MDA then iterates a data-dependent number of sweeps: C06): every MDA is started at y*(x) and stops at its first "
+        "convergence check, so the Newton step of MDANewtonRaphson is never taken and a change that only matters when the MDA input couplings differ from the converged "
+        "ones (e.g. disciplines linearized at the MDA inputs instead of the converged data) is NOT detected; MDAQuasiNewton / MDAGSNewton / MDASequential as main MDA; "
+        "single-class MDAs (MDAGaussSeidel / MDAJacobi over all the disciplines) on acyclic systems with uninterpreted disciplines (convergence within the tolerance is not "
+        "exact equality)",
         "IDF with n_processes > 1 (MDOParallelChain on threads); IDF(start_at_equilibrium=True) with the default MDA settings (inner MDAJacobi on threads) "
         "and from initial targets for which the MDA needs a data-dependent number of sweeps (the MDA starts from the design-space values: targets produced inside "
         "a cycle start at a symbolic solution y*, except in the numerically triangular cycle where they are arbitrary)",
-        "differentiated_input_names_substitute, observables, maximisation (minimize_objective=False), linear disciplines turned into MDOLinearFunction (is_linear)",
-        "self-coupled disciplines, sub-scenarios as disciplines, sparse / operator partial derivatives of the leaf disciplines",
+        "differentiated_input_names_substitute, observables and maximisation for IDF alone and for DisciplinaryOpt (covered for MDF, and for IDF only as the reference of "
+        "the MDF comparison in mdf_jac); observables with eval_obs_jac / new-iteration observables; linear disciplines turned into MDOLinearFunction (is_linear)",
+        "differentiated_input_names_substitute together with a normalized design space: gemseo scales the columns of the returned matrix position-wise by the "
+        "ranges of the design variables in design-space order, whatever the substitute (a permutation gets the ranges of other variables, see "
+        "tools/repro_C17_substitute_normalized.py); the documentation of the substitute is silent about normalisation, so nothing is asserted",
+        "sub-scenarios as disciplines, sparse / operator partial derivatives of the leaf disciplines; self-coupled disciplines outside the harness mdf_jac",
+        "normalisation of the design vector (preprocess_functions) on the IDF side and with integer variables / a database (C01); only the MDF problem is preprocessed, "
+        "with use_database=False, and its Jacobian compared with the physical total derivative scaled by the concrete ranges (ub - lb)",
         "DisciplinaryOpt with the disciplines listed in an order that is not an execution (topological) order",
-        "a change confined to BiLevel, to JacobianAssembly / the coupled adjoint, to the Newton-type MDAs, to scenario / driver code or to "
-        "preprocess_functions (normalisation of the design vector, C01) is NOT detected",
+        "a change confined to BiLevel, to the iteration of the Newton-type MDAs, to the linear-solver selection (any solver called with the same matrix and right-hand "
+        "side satisfies the contract), or to scenario / driver code is NOT detected",
         "the shape of a Jacobian with a single output component ((n,) and (1, n) are both accepted), whether IDF keeps a design variable that no discipline reads (it does)",
     ],
     stubs=[
@@ -65,6 +102,14 @@ META = dict(
         "gemseo.core.discipline.discipline.csr_array -> dense object-dtype zeros of the same shape (symbolic mode only; value-preserving; chains only)",
         "module global float() in gemseo.mda.base_mda_solver -> identity on symbolic reals (MDF harness only)",
         "harness disciplines use SimpleGrammar and no cache; every MDA / parallel chain runs with n_processes=1 (z3 is not thread-safe)",
+        "harnesses mdf_jac and weak_adjoint (symbolic mode only; concrete replays and the differential self-test run the real scipy.sparse / SuperLU / LGMRES): the "
+        "contract stubs of harness/C07.py, imported not duplicated - jacobian_assembly.csr_matrix / csc_matrix -> DenseSparse (the same values in a dense 2-D object "
+        "array), bmat -> dense placement of the given blocks, eye -> numpy.eye, empty -> exact zeros, factorized(A) and every entry of "
+        "ScipyLinalgAlgos.__NAMES_TO_FUNCTIONS -> the exact solution of A x = b (adj(A) b / det(A); a LinearOperator is probed with the unit vectors through gemseo's "
+        "_matvec / _rmatvec), every call re-stating the contract as obligations 'A x == b'; scipy_linalg.issparse also true for DenseSparse; jacobian_assembly.norm "
+        "(log-message diagnostic of the LU modes) -> an opaque value never above the tolerance.  The behaviour of SciPy itself is outside the claim",
+        "gemseo.formulations.base_formulation.zeros -> SymArray of exact zeros (symbolic mode only; unmask_x_swap_order allocates zeros(shape, dtype=object), a plain "
+        "ndarray that DesignSpace.normalize_grad would cast to float64)",
     ],
     assumptions=[
         "leaf outputs are uninterpreted functions of the flattened inputs, their partial derivatives independent uninterpreted functions of the same point",
@@ -77,6 +122,13 @@ META = dict(
         "equilibrium harness: the symbolic current values are installed with the public DesignSpace.set_current_variable (which does not validate, so no "
         "stub is needed); they are not constrained to lie inside the bounds",
         "a user constraint c(x) <= a (>= a when positive) is exposed in the standard form c - a <= 0 (a - c <= 0)",
+        "mdf_jac: well-posed system = the residual Jacobian I - dY/dU over all coupling components is regular (true by construction: concrete contraction on the strong "
+        "couplings, weak couplings triangular); 'consistent total derivatives' is read as (a) the MDF Jacobian equals dF/dx + dF/dU (I - dY/dU)^-1 dY/dx built from the "
+        "disciplines' partial derivatives at (x, y*) and (b) it equals df/dx - df/dy_t (dc/dy_t)^-1 dc/dx built from the Jacobians that the IDF objective / constraint / "
+        "observable and consistency constraints return at (x, y*) (Cramer's rule in the harness; dc/dy_t regular is asserted - it is the precondition of the statement)",
+        "mdf_jac: minimize_objective=False exposes -f (documented: 'changes the objective function sign'); with differentiated_input_names_substitute the returned "
+        "matrix holds the total derivatives w.r.t. the substitute inputs in the order of the substitute (documented in BaseFormulationSettings); with "
+        "is_function_input_normalized=True the design symbols are the normalized coordinates in [0, 1] and the Jacobian is the physical one times (ub - lb) per column",
     ],
 )
 
@@ -709,7 +761,12 @@ def h_weak(ctx, cfg):
     from gemseo.formulations.idf import IDF
     from gemseo.formulations.mdf import MDF
 
-    _install_stubs(ctx, mda=True)
+    # cfg["mdf_mda"] (harness weak_adjoint): MDF differentiates through the coupled adjoint (MDAChain with the default chain_linearize=False, or a
+    # single MDA class) instead of the chain rule of its MDOChain; needs the contract stubs of C07
+    if cfg.get("mdf_mda"):
+        _install_jac_stubs(ctx)
+    else:
+        _install_stubs(ctx, mda=True)
     system = with_roles(SYSTEMS[cfg["system"]], cfg)
     pre = f"{cfg['system']}: "
     sizes = sizes_of(system)
@@ -736,7 +793,9 @@ def h_weak(ctx, cfg):
             fo = DisciplinaryOpt(discs, system["objective"], ds)
             exp_names = [n for n in order if n in chain_inputs(system["discs"])]
         else:
-            fo = MDF(discs, system["objective"], ds, **MDAS["chain_lin"])
+            fo = MDF(discs, system["objective"], ds, **MDAS[cfg.get("mdf_mda", "chain_lin")])
+            if cfg.get("mode"):
+                fo.mda.linearization_mode = cfg["mode"]
             exp_names = expected_mdf_space(system, order)
         user = add_user_constraint(fo, system, cfg)
         problem = fo.optimization_problem
@@ -990,6 +1049,554 @@ def h_spaces(ctx, cfg):
 
 
 # ------------------------------------------------------------------------------------------------
+# MDF total derivatives on STRONGLY coupled systems (coupled adjoint, with the contract stubs of C07) == implicit-function closed form
+# == the reduced derivative computed from the Jacobian blocks that the real IDF problem returns at (x, y*)
+# ------------------------------------------------------------------------------------------------
+JAC_SYSTEMS = {
+    "sellar": SYSTEMS["sellar"], "vec": SYSTEMS["vec"], "ring3": SYSTEMS["ring3"],
+    "pair_tail": EQ_SYSTEMS["pair_tail"], "head_pair_tail": EQ_SYSTEMS["head_pair_tail"],
+    # a self-coupled discipline (y1 is an input and an output of d1) inside a cycle with d2
+    "selfc": dict(
+        discs=[("d1", {"x": 1, "y1": 1, "y2": 1}, {"y1": 1}), ("d2", {"y1": 1, "z": 2}, {"y2": 1, "f": 1, "g": 1})],
+        lin={"d1": {"y1": {"x": [[_F(1)]], "y1": [[_F(1, 4)]], "y2": [[_F(1, 2)]]}}, "d2": {"y2": {"y1": [[_F(-1, 2)]], "z": [[_F(1), _F(1, 2)]]}}},
+        design=["x", "z"], params=[], objective="f", constraint="g", acyclic=False,
+        orders=[["x", "z", "y1", "y2"], ["y2", "z", "u", "y1", "x"]],
+    ),
+    # a self-coupled discipline alone, followed by the objective discipline
+    "self1": dict(
+        discs=[("d1", {"x": 1, "y1": 1, "z": 2}, {"y1": 1}), ("d3", {"y1": 1, "x": 1}, {"f": 1, "g": 2})],
+        lin={"d1": {"y1": {"x": [[_F(2)]], "y1": [[_F(-1, 2)]], "z": [[_F(1), _F(-1)]]}}},
+        design=["x", "z"], params=[], objective="f", constraint="g", acyclic=False,
+        orders=[["x", "z", "y1"], ["y1", "z", "x"]],
+    ),
+    # two strongly connected components in sequence ((d1, d2) then (d3, d4)) and a weakly coupled tail
+    "two_scc": dict(
+        discs=[("d1", {"x": 1, "y2": 1}, {"y1": 1}), ("d2", {"y1": 1, "z": 2}, {"y2": 1}), ("d3", {"y2": 1, "y3": 1, "z": 2}, {"a": 1}), ("d4", {"a": 1, "x": 1}, {"y3": 1}),
+               ("d5", {"y3": 1, "y1": 1, "x": 1}, {"f": 1, "g": 1})],
+        lin={"d1": {"y1": {"x": [[_F(1)]], "y2": [[_F(1, 2)]]}}, "d2": {"y2": {"y1": [[_F(-1, 4)]], "z": [[_F(1), _F(0)]]}},
+             "d3": {"a": {"y2": [[_F(1)]], "y3": [[_F(1, 2)]], "z": [[_F(0), _F(1)]]}}, "d4": {"y3": {"a": [[_F(1, 2)]], "x": [[_F(-1)]]}}},
+        design=["x", "z"], params=[], objective="f", constraint="g", acyclic=False,
+        orders=[["x", "z", "y1", "y2", "y3", "a"], ["a", "y3", "z", "y2", "x", "y1"]],
+    ),
+}
+
+JAC_MDAS = dict(
+    MDAS,
+    chain_newton=dict(main_mda_name="MDAChain", main_mda_settings=dict(inner_mda_name="MDANewtonRaphson", inner_mda_settings=dict(n_processes=1), n_processes=1)),
+    newton=dict(main_mda_name="MDANewtonRaphson", main_mda_settings=dict(n_processes=1)),  # (refuses weakly coupled disciplines: ring3 / selfc only)
+)
+
+
+def explicit_solution(ctx, system, xp, params, syms):
+    """The multidisciplinary solution at the design point ``xp`` with the strong couplings as EXPLICIT exact linear combinations of the other
+    inputs of their (affine, concrete rational) disciplines - rational Gauss-Jordan elimination in the harness, as C07.consistent_point -
+    instead of symbols constrained by assumptions: the arguments of the uninterpreted outputs / partial derivatives are then plain linear
+    terms of the inputs, which the simplifier normalises (no congruence reasoning under hypotheses is needed).
+    Weak couplings: forward evaluation.  (Systems where a weak coupling read by a strongly coupled discipline depends itself on a strong coupling
+    are not handled.)"""
+    discs = system["discs"]
+    sizes = sizes_of(system)
+    strong = strong_couplings_of(discs)
+    full = {n: list(v) for n, v in xp.items()}
+    full.update({n: list(v) for n, v in params.items()})
+
+    def forward():
+        for (name, ins, outs) in discs:
+            for o in outs:
+                if o not in strong and o not in full and all(i in full for i in ins):
+                    full[o] = [syms[name].value(o, k, {i: full[i] for i in ins}) for k in range(sizes[o])]
+
+    forward()
+    unknowns = [(y, k) for y in strong for k in range(sizes[y])]
+    nu = len(unknowns)
+    terms = []   # the scalar terms (design variables, parameters, upstream weak couplings) the strong couplings depend on
+    M = [[Fr(int(r == c)) for c in range(nu)] for r in range(nu)]
+    B = [dict() for _ in range(nu)]
+    for r, (o, k) in enumerate(unknowns):
+        d = producer_of(discs, o)
+        coeffs = system["lin"][d[0]][o]
+        for i, mat in coeffs.items():
+            for j in range(sizes[i]):
+                c = Fr(mat[k][j])
+                if c == 0:
+                    continue
+                if (i, j) in unknowns:
+                    M[r][unknowns.index((i, j))] -= c
+                else:
+                    if i not in full:
+                        raise ValueError(f"explicit_solution: input {i} of {d[0]} is not available before the strong couplings")
+                    if (i, j) not in terms:
+                        terms.append((i, j))
+                    B[r][(i, j)] = B[r].get((i, j), Fr(0)) + c
+    rows = [M[r] + [B[r].get(t, Fr(0)) for t in terms] for r in range(nu)]
+    for c in range(nu):  # Gauss-Jordan with exact fractions
+        piv = next(r for r in range(c, nu) if rows[r][c] != 0)
+        rows[c], rows[piv] = rows[piv], rows[c]
+        rows[c] = [v / rows[c][c] for v in rows[c]]
+        for r in range(nu):
+            if r != c and rows[r][c] != 0:
+                f = rows[r][c]
+                rows[r] = [a - f * b for a, b in zip(rows[r], rows[c])]
+    for r, (o, k) in enumerate(unknowns):
+        acc = 0.0
+        for q, (i, j) in enumerate(terms):
+            c = rows[r][nu + q]
+            if c != 0:
+                acc = acc + exact_const(ctx, c) * full[i][j]
+        full.setdefault(o, []).append(acc)
+    forward()
+    forward()
+    missing = [n for n in sizes if n != "u" and n not in full]
+    if missing:
+        raise ValueError(f"explicit_solution: {missing} not computed")
+    return {n: v for n, v in full.items() if n not in params}
+
+
+def with_affine_outputs(system):
+    """The system with ALL outputs affine (concrete dyadic coefficients for the objective / constraint / weak-coupling outputs as well): every
+    partial derivative is then a concrete non-zero number, so that the float64 self-test (real scipy.sparse / SuperLU / LGMRES, no stub) solves
+    non-trivial linear systems with non-trivial right-hand sides on the very same code path."""
+    lin = {d: dict(v) for d, v in system["lin"].items()}
+    for (name, ins, outs) in system["discs"]:
+        for o, so in outs.items():
+            if o in lin.get(name, {}):
+                continue
+            lin.setdefault(name, {})[o] = {i: [[_F(((3 * k + 5 * j + 2 * len(i) + ord(o[0]) + len(name)) % 7) - 3 or 2, 4) for j in range(si)] for k in range(so)] for i, si in ins.items()}
+    return dict(system, lin=lin)
+
+
+def _install_jac_stubs(ctx):
+    """The float64-constructor stubs of this module plus the contract stubs of C07 (scipy.sparse containers, bmat, exact linear solves)."""
+    from harness.C07 import install_stubs
+
+    _install_stubs(ctx, mda=True)
+    install_stubs(ctx)
+    if ctx.symbolic:
+        import gemseo.formulations.base_formulation as bf
+        from symgem.core import SymArray
+
+        def zeros_sym(shape, *a, **k):  # unmask_x_swap_order: zeros(shape, dtype=object) is a plain ndarray, which DesignSpace.normalize_grad would cast to float64
+            z = np.empty(shape, dtype=object)
+            z[...] = 0.0
+            return SymArray(z)
+
+        ctx.patch(bf, "zeros", zeros_sym)
+
+
+def _cz(v):
+    """A symbolic constant that is exactly zero -> the python 0.0 (structural zero of the Laplace expansions)."""
+    from harness.C07 import _const0
+
+    return _const0(v)
+
+
+def implicit_totals(ctx, label, system, syms, sol, params, roots, outs):
+    """Oracle (a), never touches gemseo: {output: {root: nested list}} = dF/dx + dF/dU . dU/dx with (I - dY/dU) dU/dx = dY/dx over ALL coupling
+    components U (R = U - Y(x, U)), solved by Cramer's rule (Laplace expansion of C07's oracle) on the partial derivatives of the disciplines
+    at the multidisciplinary point ``sol``."""
+    from harness.C07 import _det
+
+    discs = system["discs"]
+    sizes = sizes_of(system)
+    cpl = couplings_of(discs)
+    unknowns = [(y, k) for y in cpl for k in range(sizes[y])]
+    nu = len(unknowns)
+
+    def part(o, k, v, j):
+        d = producer_of(discs, o)
+        if v not in d[1]:
+            return 0.0
+        return _cz(syms[d[0]].partial(o, k, v, j, disc_values(d[1], sol, params)))
+
+    A = [[0.0] * nu for _ in range(nu)]
+    for r, (o, k) in enumerate(unknowns):
+        for c, (v, j) in enumerate(unknowns):
+            p = part(o, k, v, j)
+            if r == c:
+                A[r][c] = 1.0 if _is_zero(p) else 1.0 - p
+            else:
+                A[r][c] = 0.0 if _is_zero(p) else -p
+    det = _det(A)
+    # well-posed system: the residual Jacobian is regular (true by construction of the systems: a concrete contraction on the strong couplings)
+    ctx.assume(ctx.not_(ctx.eq(det, 0.0)))
+    dU = {}
+    for x in roots:
+        for j in range(sizes[x]):
+            rhs = [part(o, k, x, j) for (o, k) in unknowns]
+            for c in range(nu):
+                if all(_is_zero(v) for v in rhs):
+                    dU[(unknowns[c], x, j)] = 0.0
+                    continue
+                Ac = [[rhs[r] if q == c else A[r][q] for q in range(nu)] for r in range(nu)]
+                dU[(unknowns[c], x, j)] = _det(Ac) / det
+    tot = {}
+    for o in outs:
+        tot[o] = {}
+        for x in roots:
+            rows = []
+            for k in range(sizes[o]):
+                row = []
+                for j in range(sizes[x]):
+                    if o in cpl:
+                        row.append(dU[((o, k), x, j)])
+                        continue
+                    acc = part(o, k, x, j)
+                    for (v, q) in unknowns:
+                        b = part(o, k, v, q)
+                        if _is_zero(b) or _is_zero(dU[((v, q), x, j)]):
+                            continue
+                        acc = acc + b * dU[((v, q), x, j)]
+                    row.append(acc)
+                rows.append(row)
+            tot[o][x] = rows
+    return tot
+
+
+def reduced_idf_rows(ctx, label, Jf, Jc, xcols, ycols):
+    """Obligation (b), from the blocks the REAL IDF returned: rows of  df/dx - df/dy_t (dc/dy_t)^-1 dc/dx  (Cramer's rule), one column per
+    entry of ``xcols``; ``Jf`` / ``Jc`` are lists of rows over the IDF design vector, ``ycols`` the columns of the coupling targets.
+    Returns None when dc/dy_t is not square or singular (reported)."""
+    from harness.C07 import _det
+
+    ny = len(ycols)
+    if len(Jc) != ny:
+        ctx.check(label + f": {len(Jc)} consistency constraint components for {ny} coupling target components", ctx.false())
+        return None
+    A = [[_cz(Jc[r][c]) for c in ycols] for r in range(ny)]
+    det = _det(A)
+    if ctx.check(label + ": the Jacobian of the IDF consistency constraints w.r.t. the coupling targets is regular at the solution of a well-posed system",
+                 ctx.not_(ctx.eq(det, 0.0))) is not True:
+        return None
+    rows = []
+    for k in range(len(Jf)):
+        row = []
+        for xc in xcols:
+            rhs = [_cz(Jc[r][xc]) for r in range(ny)]
+            acc = Jf[k][xc]
+            if not all(_is_zero(v) for v in rhs):
+                for m, yc in enumerate(ycols):
+                    b = _cz(Jf[k][yc])
+                    if _is_zero(b):
+                        continue
+                    Am = [[rhs[r] if q == m else A[r][q] for q in range(ny)] for r in range(ny)]
+                    dm = _det(Am)
+                    if _is_zero(dm):
+                        continue
+                    acc = acc - b * (dm / det)
+            row.append(acc)
+        rows.append(row)
+    return rows
+
+
+def _functions_of(ctx, pre, problem, roles):
+    """[(label, function, output name, sign, shift)] of a problem for the roles {objective: (name, sign), constraint: (name, spec), observable: name}."""
+    todo = [("objective", problem.objective, roles["objective"][0], roles["objective"][1], 0.0)]
+    if roles.get("constraint"):
+        g, (ctype, value, positive) = roles["constraint"]
+        f = find_function(ctx, problem, pre + "user constraint", [g], list(problem.constraints))
+        if f is not None:
+            todo.append(("constraint " + g, f, g, -1.0 if positive else 1.0, value))
+    if roles.get("observable"):
+        o = roles["observable"]
+        f = find_function(ctx, problem, pre + "observable", [o], list(problem.observables))
+        if f is not None:
+            todo.append(("observable " + o, f, o, 1.0, 0.0))
+    return todo
+
+
+def _signed(v, sign, shift=0.0):
+    if shift != 0.0:
+        v = v - shift
+    return sign * v if sign != 1.0 else v
+
+
+def h_mdf_jac(ctx, cfg):
+    from gemseo.formulations.idf import IDF
+    from gemseo.formulations.mdf import MDF
+
+    _install_jac_stubs(ctx)
+    system = dict(with_roles(JAC_SYSTEMS[cfg["system"]], cfg))
+    for role in ("objective", "constraint"):  # output choices: cfg["objective_name"] / cfg["constraint_name"] override the system's
+        if cfg.get(role + "_name"):
+            system[role] = cfg[role + "_name"]
+    if cfg.get("affine_outputs", False):
+        system = with_affine_outputs(system)
+    pre = f"{cfg['system']}/{cfg['mda']}: "
+    sizes = sizes_of(system)
+    order = system["orders"][cfg["order"]]
+    discs_t = system["discs"]
+    cpl = couplings_of(discs_t)
+    strong = strong_couplings_of(discs_t)
+    params = sym_point(ctx, "p_", system["params"], sizes)
+    syms = build_symbols(ctx, system, linear=True)
+    normalized = cfg.get("normalized", False)
+    maximize = cfg.get("maximize", False)
+    substitute = cfg.get("substitute")
+
+    # symbolic design point (physical; with cfg["normalized"] the symbols are the normalized coordinates in [0, 1] and the physical point is
+    # lb + xn (ub - lb) with the concrete bounds); strong couplings: symbolic consistent y* (assumed), weak couplings: forward values
+    design = [n for n in order if n not in cpl]
+    if normalized:
+        xn = sym_point(ctx, "n_", design, sizes)
+        xp = {}
+        for n in design:
+            xp[n] = []
+            for k in range(sizes[n]):
+                lo, up = BOUNDS[n][k]
+                ctx.assume(ctx.and_(ctx.le(0.0, xn[n][k]), ctx.le(xn[n][k], 1.0)))
+                xp[n].append(lo + xn[n][k] * (up - lo))
+    else:
+        xn = None
+        xp = sym_point(ctx, "v_", design, sizes)
+    sol = explicit_solution(ctx, system, xp, params, syms)
+    if cfg.get("ystar", "explicit") == "assumed":  # free symbols y* constrained by the hypotheses y* = Y(x, y*) (as the harness 'mdf'), a cross-check of the explicit y*
+        ystar = sym_point(ctx, "ys_", strong, sizes)
+        sol = solution_oracle(ctx, system, syms, xp, params, ystar)
+
+    # ---- MDF: the MDA starts from the disciplines' default couplings = the solution ------------------------------------------------------------
+    chain = cfg["mda"].startswith("chain")
+    downstream = [d[0] for d in discs_t if not (set(d[2]) & set(strong))] if chain else []
+    discs = build_disciplines(ctx, system, params, linear=True, defaults={y: sol[y] for y in (strong if chain else cpl)}, jac_mode=cfg.get("jac_mode", "all"),
+                              listing=cfg.get("listing"), no_defaults_for=downstream)
+    mda_kw = {k: (dict(v) if isinstance(v, dict) else v) for k, v in JAC_MDAS[cfg["mda"]].items()}
+    if cfg.get("lu"):
+        mda_kw.setdefault("main_mda_settings", {})["use_lu_fact"] = True
+    kw = dict(differentiated_input_names_substitute=tuple(substitute)) if substitute else {}
+    mdf = MDF(discs, system["objective"], build_space(system, order), **mda_kw, **kw)
+    if cfg.get("mode"):
+        mdf.mda.linearization_mode = cfg["mode"]
+    if cfg.get("matrix"):
+        mdf.mda.matrix_type = cfg["matrix"]
+    user = add_user_constraint(mdf, system, cfg)
+    if cfg.get("observable"):
+        mdf.add_observable(cfg["observable"])
+    problem = mdf.optimization_problem
+    if maximize:
+        problem.minimize_objective = False
+    names = list(problem.design_space.variable_names)
+    check_names(ctx, pre + "MDF design space = design variables read by the disciplines, no coupling", names, expected_mdf_space(system, order))
+    if set(names) != set(expected_mdf_space(system, order)):
+        return
+    layout = Layout(problem, sizes)
+    roles = dict(objective=(system["objective"], -1.0 if maximize else 1.0), constraint=(system["constraint"], user) if user is not None else None,
+                 observable=cfg.get("observable"))
+    dcols = layout.cols if not substitute else [(n, k) for n in substitute for k in range(sizes[n])]   # columns of the returned Jacobians
+    scale = {(n, k): ((BOUNDS[n][k][1] - BOUNDS[n][k][0]) if normalized else 1.0) for (n, k) in layout.cols}
+    if normalized:
+        problem.preprocess_functions(is_function_input_normalized=True, use_database=False, round_ints=False)
+    xvec = layout.vector(ctx, xn if normalized else xp)
+    orig = to_list(xvec)
+
+    # oracle (a): implicit-function closed form from the disciplines' partial derivatives
+    outs = [t for t in (system["objective"], system["constraint"] if user is not None else None, cfg.get("observable")) if t]
+    roots = sorted({n for (n, _) in dcols})
+    tot = implicit_totals(ctx, pre, system, syms, sol, params, roots, outs)
+
+    r_mdf = {}
+    for (lab, f, out, sign, shift) in _functions_of(ctx, pre + "MDF ", problem, roles):
+        d = producer_of(discs_t, out)
+        values = disc_values(d[1], sol, params)
+        exp = [_signed(syms[d[0]].value(out, k, values), sign, shift) for k in range(sizes[out])]
+        if cfg.get("jac_first", False):
+            J = f.jac(xvec)
+            J = J.copy() if isinstance(J, np.ndarray) else J
+            v = f.evaluate(xvec)
+        else:
+            v = f.evaluate(xvec)
+            v = v.copy() if isinstance(v, np.ndarray) else v
+            J = f.jac(xvec)
+        ctx.observe(pre + "MDF " + lab, obs(ctx, v))
+        ctx.observe(pre + "MDF " + lab + " jac", obs(ctx, J))
+        gv = check_values(ctx, pre + "MDF " + lab, v, exp)
+        rows = [[_signed(tot[out][n][k][j], sign) * scale.get((n, j), 1.0) if scale.get((n, j), 1.0) != 1.0 else _signed(tot[out][n][k][j], sign)
+                 for (n, j) in dcols] for k in range(sizes[out])]
+        m, ncol = len(rows), len(dcols)
+        got = jac_rows(J, m, ncol)
+        if got is None:
+            ctx.check(pre + f"MDF {lab}: Jacobian shape {tuple(np.shape(J))} instead of {(m, ncol)}", ctx.false())
+        else:
+            for k in range(m):
+                for c, (n, j) in enumerate(dcols):
+                    ctx.check(pre + f"MDF d {lab}[{k}] / d {n}[{j}] == implicit-function total derivative", ctx.eq(got[k][c], rows[k][c]))
+        if cfg.get("twice", False) and got is not None:
+            J2 = jac_rows(f.jac(xvec), m, ncol)
+            if J2 is None:
+                ctx.check(pre + f"MDF {lab}: second Jacobian has another shape", ctx.false())
+            else:
+                for k in range(m):
+                    for c in range(ncol):
+                        ctx.check(pre + f"MDF {lab}: second request of the Jacobian [{k},{c}] unchanged", ctx.eq(J2[k][c], got[k][c]))
+        r_mdf[lab] = (gv, got)
+    check_untouched(ctx, pre + "MDF", xvec, orig)
+
+    # ---- IDF on fresh disciplines at (x, y*): (b) the reduced derivative built from ITS Jacobian blocks == the MDF total derivative; (c) values ----
+    discs_i = build_disciplines(ctx, system, params, linear=True, jac_mode=cfg.get("jac_mode", "all"))
+    idf = IDF(discs_i, system["objective"], build_space(system, order, current=cfg.get("current", False)), normalize_constraints=cfg.get("norm", True))
+    user_i = add_user_constraint(idf, system, cfg)
+    if cfg.get("observable"):
+        idf.add_observable(cfg["observable"])
+    problem_i = idf.optimization_problem
+    if maximize:
+        problem_i.minimize_objective = False
+    layout_i = Layout(problem_i, sizes)
+    if not set(cpl) <= set(layout_i.names):
+        ctx.check(pre + f"IDF design space holds all couplings {cpl}: {layout_i.names}", ctx.false())
+        return
+    point_i = {n: (sol[n] if n in sol else [ctx.real(f"v_{n}{k}") for k in range(sizes[n])]) for n in layout_i.names}
+    xvec_i = layout_i.vector(ctx, point_i)
+    orig_i = to_list(xvec_i)
+    ncol_i = len(layout_i.cols)
+    col = {c: i for i, c in enumerate(layout_i.cols)}
+    ycols = [col[(y, k)] for y in cpl for k in range(sizes[y])]
+    Jc, cvals = [], []
+    for f in problem_i.constraints:
+        if user_i is not None and set(f.output_names) == {system["constraint"]}:
+            continue
+        v = f.evaluate(xvec_i)
+        vl = to_list(v) if isinstance(v, np.ndarray) else [_py(v)]
+        J = jac_rows(f.jac(xvec_i), len(vl), ncol_i)
+        if J is None:
+            ctx.check(pre + f"IDF consistency constraint {f.name}: Jacobian shape", ctx.false())
+            return
+        for k, c in enumerate(vl):
+            ctx.check(pre + f"IDF consistency constraint {f.name}[{k}] vanishes at the multidisciplinary solution", ctx.eq(c, 0.0))
+        cvals += vl
+        Jc += J
+    roles_i = dict(roles, constraint=(system["constraint"], user_i) if user_i is not None else None)
+    for (lab, f, out, sign, shift) in _functions_of(ctx, pre + "IDF ", problem_i, roles_i):
+        v = f.evaluate(xvec_i)
+        vl = to_list(v) if isinstance(v, np.ndarray) else [_py(v)]
+        Jf = jac_rows(f.jac(xvec_i), sizes[out], ncol_i)
+        if lab not in r_mdf:
+            continue
+        gv, got = r_mdf[lab]
+        if gv is not None and len(gv) == len(vl):
+            for k, (a, b) in enumerate(zip(gv, vl)):
+                ctx.check(pre + f"MDF {lab}[{k}] == IDF {lab}[{k}] at the consistent point", ctx.eq(a, b))
+        if Jf is None:
+            ctx.check(pre + f"IDF {lab}: Jacobian shape {tuple(np.shape(f.jac(xvec_i)))}", ctx.false())
+            continue
+        if got is None:
+            continue
+        # (a differentiated_input_names_substitute may name a discipline input that is not a design variable: the IDF problem has no column for it)
+        common = [(c, nj) for c, nj in enumerate(dcols) if nj in col]
+        red = reduced_idf_rows(ctx, pre + "IDF " + lab, Jf, Jc, [col[nj] for (_, nj) in common], ycols)
+        if red is None:
+            continue
+        for k in range(len(red)):
+            for q, (c, (n, j)) in enumerate(common):
+                e = red[k][q] * scale.get((n, j), 1.0) if scale.get((n, j), 1.0) != 1.0 else red[k][q]
+                ctx.check(pre + f"MDF d {lab}[{k}] / d {n}[{j}] == df/dx - df/dy_t (dc/dy_t)^-1 dc/dx from the IDF Jacobians", ctx.eq(got[k][c], e))
+    check_untouched(ctx, pre + "IDF", xvec_i, orig_i)
+
+
+def jac_configs(quick):
+    out = []
+
+    def J(system, order, mda, constraint="ineq", **kw):
+        out.append(("mdf_jac", dict(system=system, order=order, mda=mda, constraint=constraint, **kw)))
+
+    linop = dict(matrix="linear_operator")
+    if quick:
+        # ring of 2 + post-coupling objective discipline (sizes 1 and 2)
+        J("sellar", 0, "chain_gs")
+        J("sellar", 1, "chain_jacobi", "ineq_pos", mode="adjoint", **linop)
+        J("sellar", 2, "gs", "eq", mode="direct")
+        J("sellar", 0, "jacobi", "ineq_val", mode="adjoint", lu=True, norm=False)
+        J("sellar", 1, "chain_newton", "ineq", mode="direct", lu=True)
+        J("sellar", 0, "chain_gs", "ineq_val", normalized=True)
+        J("sellar", 2, "chain_jacobi", "eq", normalized=True, mode="direct", swap=True, norm=False)
+        J("sellar", 0, "chain_gs", "ineq_pos", maximize=True)
+        J("sellar", 1, "gs", "ineq", maximize=True, normalized=True, mode="adjoint", swap=True)
+        J("sellar", 0, "chain_gs", "ineq", observable="y1")
+        J("sellar", 2, "jacobi", "ineq_val", observable="y2", objective_name="y1", mode="direct", **linop)
+        J("sellar", 0, "chain_gs", "ineq", substitute=["z"])
+        J("sellar", 1, "gs", "eq", substitute=["z", "x"], mode="adjoint")
+        J("sellar", 1, "chain_gs", "ineq_pos", listing=[2, 1, 0], jac_mode="requested", twice=True, jac_first=True)
+        J("sellar", 0, "chain_gs", "ineq", ystar="assumed")
+        # size-2 strong couplings, a weak coupling output of a coupled discipline, a parameter input
+        J("vec", 0, "chain_gs")
+        J("vec", 1, "gs", "eq", mode="adjoint", jac_mode="requested")
+        J("vec", 2, "jacobi", "ineq_val", mode="direct", observable="c", norm=False)
+        J("vec", 0, "chain_jacobi", "ineq_pos", lu=True, objective_name="c", observable="a")
+        J("vec", 1, "chain_gs", "ineq", normalized=True, swap=True, mode="adjoint", **linop)
+        J("vec", 2, "chain_newton", "eq", substitute=["x"])
+        # ring of 3, objective and constraint computed inside the loop
+        J("ring3", 0, "chain_gs", swap=True)
+        J("ring3", 1, "newton", "eq", mode="adjoint")
+        J("ring3", 0, "jacobi", "ineq_pos", mode="adjoint", **linop)
+        J("ring3", 1, "gs", "ineq_val", mode="direct", objective_name="y3", observable="y1", listing=[1, 2, 0])
+        J("ring3", 0, "chain_jacobi", "ineq", normalized=True, maximize=True, lu=True)
+        # self-coupled disciplines
+        J("selfc", 0, "chain_gs")
+        J("selfc", 1, "newton", "eq", mode="adjoint", lu=True)
+        J("selfc", 0, "gs", "ineq_pos", mode="direct", objective_name="y1", norm=False)
+        J("selfc", 1, "jacobi", "ineq_val", normalized=True, **linop)
+        J("self1", 0, "chain_gs", observable="y1")
+        J("self1", 1, "chain_jacobi", "eq", mode="adjoint", swap=True)
+        J("self1", 0, "gs", "ineq_pos", mode="direct", maximize=True, jac_first=True)
+        # two strongly connected components in sequence
+        J("two_scc", 0, "chain_gs")
+        J("two_scc", 1, "gs", "eq", mode="direct", lu=True)
+        J("two_scc", 0, "chain_jacobi", "ineq_pos", mode="adjoint", observable="a", **linop)
+        J("two_scc", 1, "jacobi", "ineq_val", objective_name="y3", normalized=True)
+        J("two_scc", 0, "chain_newton", "ineq", swap=True, norm=False)
+        # strongly coupled pair with pre / post weakly coupled disciplines
+        J("head_pair_tail", 0, "chain_jacobi")
+        J("head_pair_tail", 1, "jacobi", "eq", objective_name="w", mode="direct")
+        J("head_pair_tail", 0, "gs", "ineq_pos", mode="adjoint", observable="h", jac_mode="requested")
+        J("head_pair_tail", 1, "chain_gs", "ineq_val", normalized=True, maximize=True, lu=True)
+        J("pair_tail", 1, "chain_gs", "ineq", twice=True, jac_first=True, jac_mode="requested", listing=[3, 2, 1, 0])
+        J("pair_tail", 0, "jacobi", "eq", mode="direct", lu=True, observable="w", norm=False)
+        J("pair_tail", 0, "chain_newton", "ineq_pos", mode="adjoint", **linop)
+        # a substitute naming a discipline input that is not a design variable (the parameter p)
+        J("vec", 0, "chain_gs", "ineq", substitute=["p", "x"])
+        # every output affine with concrete non-zero coefficients: the float64 self-test then runs the REAL scipy.sparse / SuperLU / LGMRES on
+        # non-trivial systems and right-hand sides (with uninterpreted outputs the self-test models set most partial derivatives to 0)
+        J("sellar", 0, "chain_gs", "ineq_val", affine_outputs=True, mode="adjoint")
+        J("sellar", 2, "jacobi", "ineq_pos", affine_outputs=True, mode="direct", lu=True, normalized=True, maximize=True)
+        J("vec", 1, "chain_jacobi", "eq", affine_outputs=True, mode="adjoint", observable="c", **linop)
+        J("ring3", 1, "gs", "ineq", affine_outputs=True, mode="direct")
+        J("selfc", 0, "newton", "ineq_val", affine_outputs=True, mode="adjoint", lu=True)
+        J("self1", 1, "chain_gs", "ineq_pos", affine_outputs=True, mode="direct", **linop)
+        J("two_scc", 0, "chain_gs", "eq", affine_outputs=True, mode="adjoint", observable="y3")
+        J("head_pair_tail", 1, "chain_jacobi", "ineq", affine_outputs=True, mode="auto", lu=True)
+        J("pair_tail", 0, "gs", "ineq_val", affine_outputs=True, mode="adjoint", substitute=["z", "x"])
+        return out
+    i = 0
+    cons = ["ineq", "eq", "ineq_val", "ineq_pos"]
+    for sname, system in JAC_SYSTEMS.items():
+        mdas = ["chain_gs", "chain_jacobi", "chain_newton", "gs", "jacobi"] + (["newton"] if sname in ("ring3", "selfc") else [])
+        cplv = couplings_of(system["discs"])
+        for o in range(len(system["orders"])):
+            for mda in mdas:
+                for mode in ("auto", "direct", "adjoint"):
+                    variant = [dict(), dict(lu=True), linop][i % 3]
+                    J(sname, o, mda, cons[i % 4], mode=mode, norm=bool(i % 2), swap=(i % 5 == 2), jac_mode="requested" if i % 4 == 3 else "all", **variant)
+                    i += 1
+            # output choices, maximisation, normalized design space, observables, substitutes
+            for k, y in enumerate(cplv):
+                J(sname, o, mdas[k % len(mdas)], cons[k % 4], objective_name=y, observable=cplv[(k + 1) % len(cplv)], mode=("direct", "adjoint")[k % 2])
+            J(sname, o, "chain_gs", "ineq_val", normalized=True)
+            J(sname, o, "jacobi", "ineq_pos", normalized=True, maximize=True, mode="adjoint", swap=True)
+            J(sname, o, "gs", "eq", maximize=True, mode="direct", lu=True)
+            J(sname, o, "chain_jacobi", "ineq", substitute=["z"], mode="adjoint")
+            J(sname, o, "gs", "ineq", substitute=["z", "x"])   # (never together with normalized=True: see META["outside"])
+            J(sname, o, "chain_gs", "ineq", twice=True, jac_first=True, listing=list(reversed(range(len(system["discs"])))))
+            if set(cplv) == set(strong_couplings_of(system["discs"])):
+                # (with weak couplings the hypotheses form needs congruence reasoning under products of uninterpreted partial derivatives: minutes per query)
+                J(sname, o, "chain_gs", "eq", ystar="assumed")
+            for mda in mdas:
+                for mode in ("direct", "adjoint"):
+                    variant = [dict(), dict(lu=True), linop][i % 3]
+                    J(sname, o, mda, cons[i % 4], affine_outputs=True, mode=mode, normalized=(i % 4 == 1), maximize=(i % 4 == 2), **variant)
+                    i += 1
+    J("vec", 0, "chain_gs", "ineq", substitute=["p", "x"])
+    J("vec", 2, "jacobi", "eq", substitute=["x", "p", "z"], mode="adjoint", affine_outputs=True)
+    return out
+
+
+# ------------------------------------------------------------------------------------------------
 def configs(tier):
     out = []
     quick = tier == "quick"
@@ -1065,10 +1672,27 @@ def configs(tier):
     out.append(("equilibrium", dict(system="pair_tail", order=0, start="warm", mda="gs", norm=True, constraint="ineq", listing=[3, 2, 1, 0])))
     out.append(("equilibrium", dict(system="head_pair_tail", order=1, start="warm", norm=True, constraint="ineq", start_at_equilibrium=False)))
     out.append(("equilibrium", dict(system="chain", order=0, norm=False, constraint="none", start_at_equilibrium=False)))
+    # ---- MDF total derivatives on strongly coupled systems (coupled adjoint) vs closed form vs reduced IDF Jacobians ------------------
+    out += jac_configs(quick)
+    # ---- acyclic systems, MDF differentiated through the coupled adjoint (MDAChain with the default chain_linearize=False) --------------
+    i = 0
+    for sname, system in SYSTEMS.items():
+        if not system["acyclic"]:
+            continue
+        n = len(system["discs"])
+        for o in range(len(system["orders"])):
+            for mda, mode in (("chain_gs", None), ("chain_jacobi", "adjoint"), ("chain_gs", "direct")):
+                if quick and (o + i) % 3 != 0:
+                    i += 1
+                    continue
+                out.append(("weak_adjoint", dict(system=sname, order=o, formulations=["dopt", "mdf", "idf"], jac_mode="requested" if i % 2 else "all", constraint=cons[i % 4],
+                                                 norm=bool(i % 2), listing=list(reversed(range(n))) if i % 4 == 1 else None, swap=(i % 5 == 3), mdf_mda=mda, mode=mode)))
+                i += 1
     # ---- variable sets ---------------------------------------------------------------------------
     for g in GRAPHS:
         out.append(("spaces", dict(graph=g, selftest=False)))
     return out
 
 
-HARNESSES = {"idf": h_idf, "idf_unbounded": h_idf, "mdf": h_mdf, "weak": h_weak, "equilibrium": h_equilibrium, "spaces": h_spaces}
+HARNESSES = {"idf": h_idf, "idf_unbounded": h_idf, "mdf": h_mdf, "weak": h_weak, "equilibrium": h_equilibrium, "spaces": h_spaces, "mdf_jac": h_mdf_jac,
+             "weak_adjoint": h_weak}
